@@ -62,7 +62,12 @@ func (c *fctl) Before(op *h.StoreOp) error {
 	c.mu.Lock()
 	c.counts[op.Kind]++
 	key := fmt.Sprintf("%s#%d", op.Kind, c.counts[op.Kind])
-	fail, wedge, ch := c.fail == key, c.wedge == key, c.wch
+	fail, wedge, ch := false, c.wedge == key, c.wch
+	for _, f := range strings.Split(c.fail, ",") { // one or several positions
+		if f == key {
+			fail = true
+		}
+	}
 	c.mu.Unlock()
 	if wedge && ch != nil {
 		select {
@@ -276,6 +281,18 @@ func scenarios() []scenario {
 			return e.stop(5 * time.Second)
 		})
 	}
+	// two failures in a row: the store call fails and the clean-up that follows it fails too
+	for _, f := range []string{"update#1,tombstone#1", "close#1,abort#1", "close#1,abort#1,tombstone#1", "write#2,abort#1", "create#1,create#2", "update#1,update#2,tombstone#2"} {
+		f := f
+		add("flush-double-failure/"+f, func(l *slog.Logger) error {
+			e := newEnv(l, nil, nil)
+			e.eng.Start()
+			e.ctl.fail = f
+			e.ingest(rows("f", 5, 2), true)
+			e.ingest(rows("g", 5, 2), true)
+			return e.stop(5 * time.Second)
+		})
+	}
 	add("unmarshalable-row", func(l *slog.Logger) error {
 		e := newEnv(l, nil, nil)
 		e.eng.Start()
@@ -373,6 +390,23 @@ func scenarios() []scenario {
 			e.eng.Start()
 			for i := 0; i < 3; i++ {
 				e.ingest(rows(fmt.Sprintf("m%d-", i), 4, 1), true)
+			}
+			e.ctl.mu.Lock()
+			e.ctl.counts = map[string]int{}
+			e.ctl.fail = f
+			e.ctl.mu.Unlock()
+			e.eng.Merge(context.Background())
+			e.eng.Merge(context.Background())
+			return e.stop(5 * time.Second)
+		})
+	}
+	for _, f := range []string{"update#1,tombstone#1", "update#1,tombstone#2", "close#1,abort#1", "write#2,abort#1,tombstone#1", "close#2,tombstone#1", "read#2,abort#1"} {
+		f := f
+		add("merge-double-failure/"+f, func(l *slog.Logger) error {
+			e := newEnv(l, nil, nil)
+			e.eng.Start()
+			for i := 0; i < 4; i++ {
+				e.ingest(rows(fmt.Sprintf("m%d-", i), 4, 2), true)
 			}
 			e.ctl.mu.Lock()
 			e.ctl.counts = map[string]int{}
